@@ -3,6 +3,7 @@
 //! Writes DIR/cases.txt (one case per line, fed verbatim to the Lean driver), DIR/impl.txt (the
 //! implementation's canonical answers), DIR/oracle.txt (the property oracle's verdict on the
 //! implementation's answer) and DIR/stats.json (what was generated).
+mod abcdump;
 mod out;
 mod rng;
 
@@ -26,6 +27,11 @@ fn main() {
     if args.len() < 2 {
         eprintln!("usage: lmv-harness <property> --tier T --seed N --out DIR");
         std::process::exit(2);
+    }
+    if args[1] == "abc-dump" {
+        // executed alphabet tables for tools/gen/abc.py (no panic hook: a panic here is a failure)
+        abcdump::run();
+        return;
     }
     let prop = args[1].clone();
     let mut cfg = Cfg {
